@@ -69,6 +69,13 @@ CLAIMED["C19"] = (
     "three structural clauses of C19; which sync point a torn file reopens to and content equality are not decided; the "
     "(function, event A, event B) table is frozen in props/C19.py",
     "DESIGN.md section 4 C19, section 3 R-ORDER")
+CLAIMED["C13"] = (
+    "MIR layout-event agreement between writers and readers (R-PAIR, strong projection) and inverse dispatch tables (R-VARIANT.inverse)",
+    "static rules over MIR: every DataOutput::write_K x DataInput::read_K implementor pair and every serialize/deserialize "
+    "pair of the io files must produce the same sequence of multi-byte integer widths+endianness, primitive kinds and nested "
+    "(de)serialisations; each VarIntStrategy variant must decode with the helper family it encodes with",
+    "format-agreement clauses of C13; value round trips, SIMD/scalar byte identity and buffered refill behaviour are not decided",
+    "DESIGN.md section 4 C13, section 3 R-PAIR")
 NA = {
     "C11": "sortedness/permutation/multiset equality of loops over data for all inputs and configurations is value-level; no structural clause is a necessary condition short of the result itself",
     "C12": "lexicographic order of all suffixes, exact LCP and search ranges are value-level for every construction algorithm",
